@@ -339,7 +339,12 @@ def _codecs():
         "zip": (llsd.zip_llsd, llsd.unzip_llsd, zlib.decompress),
         "not": (llsd.format_notation, llsd.parse_notation, lambda b: b),
         "xml": (llsd.format_xml, llsd.parse_xml, lambda b: b),
+        "xmlp": (llsd.format_pretty_xml, llsd.parse_xml, lambda b: b),
     }
+
+
+# documents that announce their own format also go through the content-sniffing dispatcher llsd.parse()
+SNIFF = {"binh": "bin", "not": "not", "xml": "xml", "xmlp": "xml"}
 
 
 def form_events(val, forms, pv=None):
@@ -350,7 +355,8 @@ def form_events(val, forms, pv=None):
     for form in forms:
         fmt, parse, inflate = cod[form]
         st, out = impl_call(fmt, val)
-        ev = {"ev": "Form", "form": form, "v": pv, "st": st, "out": [], "pst": "ok", "r": V("err", []), "dt": [], "rt": []}
+        ev = {"ev": "Form", "form": form, "v": pv, "st": st, "out": [], "pst": "ok", "r": V("err", []), "dt": [], "rt": [],
+              "sniff": SNIFF.get(form, "none"), "head": [], "sst": "ok", "rs": V("err", [])}
         if st != "ok":
             ev["exc"] = out
             evs.append(ev)
@@ -362,7 +368,16 @@ def form_events(val, forms, pv=None):
             ev["r"] = proj(r)
         else:
             ev["exc"] = r
-        if form != "xml":
+        if ev["sniff"] != "none":
+            from hippolyzer.lib.base import llsd
+            ev["head"] = list(out[:40])
+            sst, rs = impl_call(llsd.parse, out)
+            ev["sst"] = sst
+            if sst == "ok":
+                ev["rs"] = proj(rs)
+            else:
+                ev["sexc"] = rs
+        if form not in ("xml", "xmlp"):
             try:
                 raw = inflate(out)
             except zlib.error as e:
@@ -459,6 +474,17 @@ def _validate_codec(chk: Check, runs, label):
             by_form.setdefault(c.split(".")[0], []).append(c)
         for form, cl in sorted(by_form.items()):
             ev = next(e for e in evs if e["form"] == form)
+            sn = [c for c in cl if ".sniff-" in c]
+            if sn and ev["st"] == ev["pst"] == "ok" and ev["r"] == ev["v"]:
+                # the format's own parser is fine with the document, the sniffing dispatcher is not
+                chk.violation("LLSD %s form through llsd.parse(): differs from the format's own parser" % form,
+                              {"kind": "llsd-codec", "class": "sniff-dispatch", "form": form,
+                               "clauses": "+".join(sorted(c.split(".", 1)[1] for c in sn))},
+                              {"tz": tz, "value": common._clip(ev["v"]), "via_llsd_parse": common._clip(ev["rs"]), "exc": ev.get("sexc"),
+                               "head": bytes(ev["head"]).decode("latin-1"), "out": bytes(ev["out"]).decode("latin-1")[:300]})
+                cl = [c for c in cl if c not in sn]
+                if not cl:
+                    continue
             for cls in sorted(classify_codec(ev, tz, facts)):
                 chk.violation("LLSD %s form: %s" % (form, cls),
                               {"kind": "llsd-codec", "class": cls, "form": form,
@@ -472,11 +498,21 @@ def _codec_table(chk: Check, big: bool):
     """LLSDFormat_MBT: laws on every value up to depth 2 + B3 table replay."""
     from hippolyzer.lib.base import llsd
     import hippolyzer.lib.base.serialization as se
-    invs = ["WellFormed", "BinRoundTrip", "BinDocRoundTrip", "BinFraming", "NotRoundTrip", "NotAltRoundTrip", "NotNoNewline"]
-    cfg = "SPECIFICATION Spec\nCONSTANTS Big = %s\n%s" % ("TRUE" if big else "FALSE", "".join("INVARIANT %s\n" % i for i in invs))
+    invs = ["WellFormed", "BinRoundTrip", "BinDocRoundTrip", "BinFraming", "NotRoundTrip", "NotAltRoundTrip", "NotNoNewline", "SniffLaw"]
+
+    def mk(tiny, both):
+        return "SPECIFICATION Spec\nCONSTANTS Big = %s Tiny = %s SniffTrimBoth = %s\n%s" % (
+            "TRUE" if big else "FALSE", "TRUE" if tiny else "FALSE", "TRUE" if both else "FALSE", "".join("INVARIANT %s\n" % i for i in invs))
     cfgp = os.path.join(chk.scratch, "llsdmbt.cfg")
+    # the sniffing law bites: a dispatcher that trims BOTH ends of the body is refuted by TLC (binary documents end in raw bytes)
     with open(cfgp, "w") as f:
-        f.write(cfg)
+        f.write(mk(True, True))
+    res = common.run_tlc(os.path.join(common.SPECS, "LLSDFormat_MBT.tla"), cfgp, workers=1, scratch=chk.scratch)
+    chk.add_tlc(res, "LLSDFormat_MBT leaves, dispatcher trimming both ends (must be refuted)")
+    if "SniffLaw" not in res.violated:
+        raise common.MachineryError("SniffLaw does not refute a both-ends trimming dispatcher: %r" % res.violated)
+    with open(cfgp, "w") as f:
+        f.write(mk(False, False))
     res = common.run_tlc(os.path.join(common.SPECS, "LLSDFormat_MBT.tla"), cfgp, workers=1, scratch=chk.scratch, heap="8g")
     chk.require_model_ok(res, "LLSDFormat_MBT depth<=2 big=%s" % big)
     rows = [r for r in res.printed() if isinstance(r, dict) and r.get("row") == "val"]
@@ -494,7 +530,9 @@ def _codec_table(chk: Check, big: bool):
         for what, fn, inp in (("parse_binary", llsd.parse_binary, b),
                               ("parse_binary(header)", llsd.parse_binary, b"<?llsd/binary?>\n" + b),
                               ("unzip_llsd", llsd.unzip_llsd, zlib.compress(b)),
-                              ("parse_notation", llsd.parse_notation, nt)):
+                              ("parse_notation", llsd.parse_notation, nt),
+                              ("parse(binary document)", llsd.parse, b"<?llsd/binary?>\n" + b),
+                              ("parse(notation document)", llsd.parse, nt)):
             st, got = impl_call(fn, inp)
             if st != "ok" or proj(got) != v:
                 cls = "other"
@@ -516,11 +554,12 @@ def _codec_table(chk: Check, big: bool):
         alt_ok += st == "ok" and proj(got) == v
         if v["t"] in ("arr", "map"):
             chk.nontrivial(("row", n))
-        forms = ["bin", "binh", "zip", "not", "xml"]
+        forms = ["bin", "binh", "zip", "not", "xml", "xmlp"]
         # XML cannot carry control characters (third-party formatter drops them): XML-legal rows only
         val = unproj(v)
         if not tree_facts(val)["xml_ok"]:
             forms.remove("xml")
+            forms.remove("xmlp")
         runs_in.append((n, val, forms, {"bin": list(b), "binh": list(b"<?llsd/binary?>\n" + b), "zip": list(b), "not": list(nt)}))
     chk.cov["traces_validated_against_impl"] += len(rows)
     chk.notes.append("alternative notation syntax rows accepted by the real parser (informational, not part of the property): %d/%d" % (alt_ok, alt_n))
@@ -562,7 +601,7 @@ def _codec(chk: Check, big: bool, n_trees: int, depth: int):
         if not facts["aware"]:
             forms.append("not")
             if facts["xml_ok"]:
-                forms.append("xml")
+                forms += ["xml", "xmlp"] if i % 2 else ["xml"]
         trees.append((100000 + i, val, forms))
     facts_of = {tid: tree_facts(val) for tid, val, _ in table_items + trees}
     for part in common.chunked(trees, 16):
@@ -583,7 +622,9 @@ def _codec(chk: Check, big: bool, n_trees: int, depth: int):
             # the row's value needs no second TLC run: the model check already proved that those bytes denote the value
             # (XML has no bytes in the specification: there the recorded equality is all TLC would check)
             same = [e for e in evs2 if e["st"] == e["pst"] == "ok" and e["r"] == e["v"]
-                    and (e["form"] == "xml" or table_bytes[tid].get(e["form"]) == e["out"])]
+                    and (e["form"] in ("xml", "xmlp") or table_bytes[tid].get(e["form"]) == e["out"])
+                    and (e["sniff"] == "none" or (e["sst"] == "ok" and e["rs"] == e["v"]
+                                                  and bytes(e["head"]).startswith({"bin": b"<?llsd/binary?>\n", "xml": b"<", "not": b""}[e["sniff"]])))]
             chk.cov["table_rows_identical_output"] = chk.cov.get("table_rows_identical_output", 0) + len(same)
             chk.count(len(same))
             evs2 = [e for e in evs2 if not any(e is x for x in same)]
